@@ -35,6 +35,25 @@ def fresh(d):
     return new_collection(d.expr)
 
 
+def run_graph(c, opt):
+    """Build c's own graph under optimize-graph=opt and execute it with the driver's scheduler (never through
+    dask.compute, whose generic optimizer would simplify the expression again).  -> (store, keys, result)"""
+    keys = graphs.flatten_keys(c.__dask_keys__())
+    with _cfg(opt):
+        dsk = c.__dask_graph__()
+    G, ids, gg = graphs.export_graph(dsk, keys)
+    orders = graphs.topo_orders(G, how_many=1)
+    if not orders:
+        raise RuntimeError("graph not executable (not closed or cyclic)")
+    _, store = graphs.execute(gg, ids, orders[0], fingerprints=False)
+    fin, extra = c.__dask_postcompute__()
+
+    def nest(ks):
+        return [nest(e) for e in ks] if isinstance(ks, list) else store[ks]
+
+    return store, keys, fin(nest(c.__dask_keys__()), *extra)
+
+
 # ------------------------------------------------------------------ C04
 def graph_case(d, opt, at=0):
     name0 = d.name
@@ -64,25 +83,11 @@ def obs_graph(ctx, k, act, d, nv, problems):
 # ------------------------------------------------------------------ C03
 def blocks_case(d, at=0, opt=True):
     adv = advertised(d)              # read before any graph is built
-    keys = graphs.flatten_keys(d.__dask_keys__())
-    with _cfg(opt):
-        c = fresh(d)
-        dsk = c.__dask_graph__()
-    G, ids, gg = graphs.export_graph(dsk, keys)
-    orders = graphs.topo_orders(G, how_many=1)
-    if not orders:
-        raise RuntimeError("graph not executable (not closed or cyclic)")
-    _, store = graphs.execute(gg, ids, orders[0], fingerprints=False)
+    store, keys, res = run_graph(fresh(d), opt)
     blocks = []
     for key in keys:
         v = store[key]
         blocks.append({"idx": [int(i) for i in key[1:]], "shape": [int(s) for s in np.shape(v)], "dtype": str(np.asarray(v).dtype)})
-    fin, extra = d.__dask_postcompute__()
-
-    def nest(ks):
-        return [nest(e) for e in ks] if isinstance(ks, list) else store[ks]
-
-    res = fin(nest(d.__dask_keys__()), *extra)
     adv2 = advertised(d)
     case = {"fn": "blocks", "at": at, "opt": int(bool(opt)), "adv": adv, "blocks": blocks,
             "result": {"shape": [int(s) for s in np.shape(res)], "dtype": str(np.asarray(res).dtype)}}
@@ -108,9 +113,9 @@ def _value_of(expr_or_coll, opt):
 
     c = expr_or_coll if isinstance(expr_or_coll, Array) else new_collection(expr_or_coll)
     try:
-        with _cfg(opt), warnings.catch_warnings():
+        with warnings.catch_warnings():
             warnings.simplefilter("ignore")
-            return spec_value(c.compute(scheduler="sync"))
+            return spec_value(run_graph(c, opt)[2])
     except Exception as ex:
         return dict(RAISED, err=f"{type(ex).__name__}: {str(ex)[:160]}")
 
@@ -139,3 +144,102 @@ def obs_phases(ctx, k, act, d, nv, problems):
     if exp["kind"] == "err":
         return
     ctx["emit"].append(phases_case(d, exp, k))
+
+
+# ------------------------------------------------------------------ C02 (every fired rewrite)
+def _proj(expr):
+    """value + dtype of an expression, computed from its own un-optimized graph"""
+    from dask_array._new_collection import new_collection
+
+    try:
+        with warnings.catch_warnings():
+            warnings.simplefilter("ignore")
+            v = np.asarray(run_graph(new_collection(expr), False)[2])
+        sv = spec_value(v)
+        sv["dtype"] = str(v.dtype)
+        return sv
+    except Exception as ex:
+        return dict(RAISED, dtype="", err=f"{type(ex).__name__}: {str(ex)[:160]}")
+
+
+def rewrite_cases(d, at=0, limit=12):
+    from .record import recording
+
+    with recording() as rec:
+        try:
+            with warnings.catch_warnings():
+                warnings.simplefilter("ignore")
+                d.expr.simplify().lower_completely()
+        except Exception:
+            pass
+        records = list(rec.records)
+    out = []
+    for phase, rule, before, after in records[:limit]:
+        pb = _proj(before)
+        pa = _proj(after) if pb["kind"] != "raised" else dict(RAISED, dtype="")
+        out.append({"fn": "rewrite", "at": at, "phase": phase, "rule": rule, "before": pb, "after": pa,
+                    "btype": type(before).__name__, "atype": type(after).__name__})
+    return out
+
+
+def obs_rewrites(ctx, k, act, d, nv, problems):
+    ctx["emit"].extend(rewrite_cases(d, k))
+
+
+# ------------------------------------------------------------------ C02 (fusion provenance)
+def _frontier(gg, start, common):
+    seen, out, stack = set(), set(), [start]
+    while stack:
+        k = stack.pop()
+        if k in seen:
+            continue
+        seen.add(k)
+        if k in common and k != start:
+            out.add(k)
+            continue
+        t = gg.get(k)
+        if t is not None:
+            stack.extend(t.dependencies)
+    return out
+
+
+def fusion_case(d, at=0):
+    from dask._expr import Expr
+
+    with warnings.catch_warnings():
+        warnings.simplefilter("ignore")
+        low = d.expr.simplify().lower_completely()
+        fu = low.fuse()
+    if fu._name == low._name and len(list(fu.walk())) == len(list(low.walk())):
+        return None
+    gl = graphs.convert(Expr.__dask_graph__(low))
+    gf = graphs.convert(Expr.__dask_graph__(fu))
+    common = set(gl) & set(gf)
+    ids = {}
+
+    def kid(k):
+        return ids.setdefault(k, len(ids) + 1)
+
+    blocks = []
+    import itertools
+
+    for idx in itertools.product(*[range(n) for n in low.numblocks]):
+        kl, kf = (low._name,) + idx, (fu._name,) + idx
+        if kl not in gl or kf not in gf:
+            blocks.append({"idx": list(idx), "fused": [0], "unfused": [-1]})
+            continue
+        blocks.append({"idx": list(idx), "fused": sorted(kid(k) for k in _frontier(gf, kf, common)),
+                       "unfused": sorted(kid(k) for k in _frontier(gl, kl, common))})
+    nontrivial = any(b["fused"] for b in blocks)
+    return {"fn": "fusion", "at": at, "blocks": blocks, "nontrivial": int(nontrivial),
+            "ngroups": sum(1 for n in fu.walk() if type(n).__name__ == "FusedBlockwise")}
+
+
+def obs_fusion(ctx, k, act, d, nv, problems):
+    try:
+        c = fusion_case(d, k)
+    except Exception as ex:
+        ctx["emit"].append({"fn": "fusion-raised", "at": k, "err": f"{type(ex).__name__}: {str(ex)[:200]}"})
+        return
+    if c is not None:
+        ctx["emit"].append(c)
